@@ -47,15 +47,20 @@ func checkC09(sc *Scenario, t *Truth) []Violation {
 			prev = ""
 		}
 		prevSeq := 0
+		lastStart := 0
 		for _, tr := range t.Trans[rep] {
+
 			if prev == "" || tr.State == prev {
 				prev, prevSeq = tr.State, tr.Seq
+				if tr.State == "Running" || tr.State == "Launching" {
+					lastStart = tr.Seq
+				}
 				continue
 			}
 			ok := false
 			if isTerminalStatus(prev) {
 				// terminal states change only on an explicit new start
-				ok = t.explicitStartCovering(rep, prevSeq-1, tr.Seq) && (tr.State == "Running" || tr.State == "Launching" || tr.State == "Pending" || tr.State == "Error" || tr.State == "Skipped" || tr.State == "Terminating" || tr.State == "Completed")
+				ok = (t.explicitStartCovering(rep, prevSeq-1, tr.Seq) || t.startRequestedBetween(rep, lastStart, tr.Seq)) && (tr.State == "Running" || tr.State == "Launching" || tr.State == "Pending" || tr.State == "Error" || tr.State == "Skipped" || tr.State == "Terminating" || tr.State == "Completed")
 			} else {
 				ok = contains(legalNext[prev], tr.State)
 			}
@@ -64,6 +69,9 @@ func checkC09(sc *Scenario, t *Truth) []Violation {
 					fmt.Sprintf("%s changed status %s -> %s at seq %d (t=%v)", rep, prev, tr.State, tr.Seq, tr.T), tr.Seq})
 			}
 			prev, prevSeq = tr.State, tr.Seq
+			if tr.State == "Running" || tr.State == "Launching" {
+				lastStart = tr.Seq
+			}
 		}
 	}
 	// (b) agreement at stable points
@@ -137,6 +145,13 @@ func checkC09(sc *Scenario, t *Truth) []Violation {
 						alive = true
 					}
 				}
+				if st.Status == "Restarting" {
+					// a back-off wait that the policy still owes is something left to wait for
+					insts := t.ByRep[name]
+					if p := sc.specOfReplica(name); p != nil && len(insts) > 0 && restartOwed(p, insts[len(insts)-1].Code, 0) {
+						continue
+					}
+				}
 				if !alive && len(t.LiveAt(t.Final.Seq)) == 0 {
 					vs = append(vs, Violation{"C09", "stuck-in-transient-state", st.Status, fmt.Sprintf("%s is still reported %s at the end of the run although no command is alive and nothing is left to wait for", name, st.Status), t.Final.Seq})
 				}
@@ -144,4 +159,22 @@ func checkC09(sc *Scenario, t *Truth) []Violation {
 		}
 	}
 	return vs
+}
+
+// startRequestedBetween: an explicit start-like request naming the replica was invoked
+// after position `after` and before `before` (its effect may materialise much later, e.g.
+// when the new instance has to wait for dependencies first).
+func (t *Truth) startRequestedBetween(rep string, after, before int) bool {
+	for _, c := range t.Calls {
+		if !isStartOp(c.Op) {
+			continue
+		}
+		if (c.Op == "start" || c.Op == "restart") && c.Arg != rep {
+			continue
+		}
+		if c.CallSeq > after && c.CallSeq < before {
+			return true
+		}
+	}
+	return false
 }
